@@ -39,17 +39,19 @@ def evaluate(pid, cases, sel, tag="c", shard=150):
 
 
 def shrink(pid, case, sel, code, rounds=40):
-    """smallest history (prefix, then dropped operations) that still yields `code`"""
+    """smallest history (prefix, then dropped operations) that still yields `code`;
+    paired relation runs (case["groups"]) are kept intact"""
+    import c05_gen
     cur = case
-    prefixes = [dict(cur, ops=cur["ops"][:n]) for n in range(1, len(cur["ops"]))]
+    prefixes = [c05_gen.truncate(cur, n) for n in range(1, len(cur["ops"]))]
     if prefixes:
         bad, _ = evaluate(pid, prefixes, sel, tag="s")
         hit = [i for i, c, _ in bad if c == code]
         if hit:
             cur = prefixes[min(hit)]
     for _ in range(rounds):
-        idx = list(range(len(cur["ops"]) - 1))[::-1]
-        cands = [ic.drop_op(cur, j) for j in idx]
+        idx = [j for j in range(len(cur["ops"]) - 1) if c05_gen.droppable(cur, j)][::-1]
+        cands = [c05_gen.drop_op(cur, j) for j in idx]
         cands = [c for c in cands if c is not None and c["ops"]]
         if not cands:
             break
@@ -105,7 +107,7 @@ def attr_type(case, aid):
 
 
 def describe(case, code, obs, view=None):
-    d = {"table": case["table"], "ops": case["ops"], "nd": case["nd"], "code": code,
+    d = {"table": case["table"], "ops": case["ops"], "nd": case["nd"], "groups": case.get("groups", []), "code": code,
          "meaning": {1: "model and implementation disagree; the documentation oracle accepts the implementation's run",
                      2: "the implementation's observed result contradicts the documentation oracle (Inst/SpecHelpers.v)"}.get(code),
          "observed": obs, "replay": "bin/check <id> --replay <this file>"}
